@@ -742,7 +742,9 @@ func restoreCollection(co *CollectionOptions, storeFooter *Footer) (
 func removeFiles(dir string, fnames []string) error {
 	for _, fname := range fnames {
 		err := os.Remove(path.Join(dir, fname))
-		if err != nil {
+		if err != nil && !os.IsNotExist(err) {
+			// A file that is already gone is fine: a store that was
+			// just closed unlinks its superseded files asynchronously.
 			return err
 		}
 	}
